@@ -117,7 +117,7 @@ def _replay(chunk, arg):
     W = World(zoo.BASIC, arg["poolset"])
     viol, n, nontriv = [], 0, set()
     for case in chunk:
-        viol.extend(check_case(W, case, arg["pid"]))
+        viol.extend(core.safe(check_case, case, W, case, arg["pid"]))
         n += 2 * len(case.get("pairs", [])) + len(case.get("vars", []))
         for p in case.get("pairs", []):
             if p["ceq"] and p["a"] != p["b"]:
